@@ -5,7 +5,7 @@ use super::*;
 use crate::verif_nd::{self as nd, harness, vassert, vcover};
 
 /// arbitrary row of `w` bytes (every nibble arbitrary)
-fn any_row(w: usize) -> CountMinRow {
+pub(crate) fn any_row(w: usize) -> CountMinRow {
     let mut v = Vec::with_capacity(w);
     let mut i = 0;
     while i < w {
@@ -86,7 +86,7 @@ harness! {
 }
 
 /// arbitrary sketch with rows of `w` bytes (2w counters per row), arbitrary seeds
-fn any_sketch(w: usize) -> CountMinSketch {
+pub(crate) fn any_sketch(w: usize) -> CountMinSketch {
     CountMinSketch {
         rows: [any_row(w), any_row(w), any_row(w), any_row(w)],
         seeds: [nd::any_u64(), nd::any_u64(), nd::any_u64(), nd::any_u64()],
